@@ -140,11 +140,14 @@ def ref_fmin_powell(func, x0, brent, xtol=1e-4, ftol=1e-4, maxiter=None, maxfun=
         fx = fval
         bigind = 0
         delta = 0.0
+        altbig = 0
         for i in range(N):
             direc1 = direc[i]
             fx2 = fval
             fval, x, direc1 = linesearch(x, direc1, xtol * 100)
             ties['dec==delta'] += int((fx2 - fval) == delta and i > 0)
+            if (fx2 - fval) >= delta:
+                altbig = i
             if (fx2 - fval) > delta:
                 delta = fx2 - fval
                 bigind = i
@@ -173,6 +176,7 @@ def ref_fmin_powell(func, x0, brent, xtol=1e-4, ftol=1e-4, maxiter=None, maxfun=
             ties['fx>fx2'] += 1
             if t < 0.0:
                 ties['replaced'] += 1
+                ties['replaced-with-tied-bigind'] += int(altbig != bigind)
                 fval, x, direc1 = linesearch(x, direc1, xtol * 100)
                 direc[bigind] = direc[-1]
                 direc[-1] = direc1
